@@ -2514,11 +2514,131 @@ let rec oc_visit c fuel n0 s =
   match fuel with
   | O -> None
   | S f ->
-    let children = fun n1 s0 ->
+    let spine = fun n1 s0 ->
       let Node (t, cs) = n1 in
-      (match map_st (oc_visit c f) cs s0 with
-       | Some p -> let (cs', s') = p in Some ((Node (t, cs')), s')
-       | None -> None)
+      (match t with
+       | K (k, lo, hi) ->
+         (match k with
+          | KScript -> Some (n1, s0)
+          | KModule -> Some (n1, s0)
+          | KBlock -> Some (n1, s0)
+          | KExprStmt -> Some (n1, s0)
+          | KIf -> Some (n1, s0)
+          | KReturn -> Some (n1, s0)
+          | KVarDecl -> Some (n1, s0)
+          | KVarDeclarator -> Some (n1, s0)
+          | KEmptyStmt -> Some (n1, s0)
+          | KBin -> Some (n1, s0)
+          | KAssign -> Some (n1, s0)
+          | KTpl -> Some (n1, s0)
+          | KTplElem -> Some (n1, s0)
+          | KTaggedTpl -> Some (n1, s0)
+          | KCall ->
+            (match cs with
+             | [] -> Some (n1, s0)
+             | cx :: l ->
+               (match l with
+                | [] -> Some (n1, s0)
+                | callee :: l0 ->
+                  (match l0 with
+                   | [] -> Some (n1, s0)
+                   | args :: l1 ->
+                     (match l1 with
+                      | [] -> Some (n1, s0)
+                      | targs :: l2 ->
+                        (match l2 with
+                         | [] ->
+                           if (||) (is_kind KSuper callee)
+                                (is_kind KImport callee)
+                           then Some (n1, s0)
+                           else (match oc_visit c f callee s0 with
+                                 | Some p ->
+                                   let (callee', s') = p in
+                                   Some ((Node ((K (KCall, lo, hi)),
+                                   (cx :: (callee' :: (args :: (targs :: [])))))),
+                                   s')
+                                 | None -> None)
+                         | _ :: _ -> Some (n1, s0))))))
+          | KMember ->
+            (match cs with
+             | [] -> Some (n1, s0)
+             | obj :: l ->
+               (match l with
+                | [] -> Some (n1, s0)
+                | prop :: l0 ->
+                  (match l0 with
+                   | [] ->
+                     (match oc_visit c f obj s0 with
+                      | Some p ->
+                        let (obj', s') = p in
+                        Some ((Node ((K (KMember, lo, hi)),
+                        (obj' :: (prop :: [])))), s')
+                      | None -> None)
+                   | _ :: _ -> Some (n1, s0))))
+          | KOptChain ->
+            (match cs with
+             | [] -> Some (n1, s0)
+             | opt :: l ->
+               (match l with
+                | [] -> Some (n1, s0)
+                | n2 :: l0 ->
+                  let Node (t0, cs0) = n2 in
+                  (match t0 with
+                   | K (k0, mlo, mhi) ->
+                     (match k0 with
+                      | KCall ->
+                        (match cs0 with
+                         | [] -> Some (n1, s0)
+                         | cx :: l1 ->
+                           (match l1 with
+                            | [] -> Some (n1, s0)
+                            | callee :: l2 ->
+                              (match l2 with
+                               | [] -> Some (n1, s0)
+                               | args :: l3 ->
+                                 (match l3 with
+                                  | [] -> Some (n1, s0)
+                                  | targs :: l4 ->
+                                    (match l4 with
+                                     | [] ->
+                                       (match l0 with
+                                        | [] ->
+                                          (match oc_visit c f callee s0 with
+                                           | Some p ->
+                                             let (callee', s') = p in
+                                             Some ((Node ((K (KOptChain, lo,
+                                             hi)), (opt :: ((Node ((K (KCall,
+                                             mlo, mhi)),
+                                             (cx :: (callee' :: (args :: (targs :: [])))))) :: [])))),
+                                             s')
+                                           | None -> None)
+                                        | _ :: _ -> Some (n1, s0))
+                                     | _ :: _ -> Some (n1, s0))))))
+                      | KMember ->
+                        (match cs0 with
+                         | [] -> Some (n1, s0)
+                         | obj :: l1 ->
+                           (match l1 with
+                            | [] -> Some (n1, s0)
+                            | prop :: l2 ->
+                              (match l2 with
+                               | [] ->
+                                 (match l0 with
+                                  | [] ->
+                                    (match oc_visit c f obj s0 with
+                                     | Some p ->
+                                       let (obj', s') = p in
+                                       Some ((Node ((K (KOptChain, lo, hi)),
+                                       (opt :: ((Node ((K (KMember, mlo,
+                                       mhi)),
+                                       (obj' :: (prop :: [])))) :: [])))), s')
+                                     | None -> None)
+                                  | _ :: _ -> Some (n1, s0))
+                               | _ :: _ -> Some (n1, s0))))
+                      | _ -> Some (n1, s0))
+                   | _ -> Some (n1, s0))))
+          | _ -> Some (n1, s0))
+       | _ -> Some (n1, s0))
     in
     (match optchain_parts n0 with
      | Some p ->
@@ -2532,11 +2652,11 @@ let rec oc_visit c fuel n0 s =
             let n1 = match repl with
                      | Some r -> r
                      | None -> n0 in
-            if optional then Some (n1, s1) else children n1 s1
+            if optional then Some (n1, s1) else spine n1 s1
        else if oc_is_target c n0
             then oc_visit c f n0 (oc_set_found s)
-            else children n0 s
-     | None -> children n0 s)
+            else spine n0 s
+     | None -> spine n0 s)
 
 (** val optchain_transform :
     config -> nat -> node -> pstate -> ((node * bool) * pstate) option **)
@@ -3441,6 +3561,16 @@ let rec block_visit c fuel n0 t =
             (if status_eqb t.t_status Cancelled
              then n0
              else arrow_transform n0) t
+        | KIdent ->
+          (match ident_sym n0 with
+           | Some sym ->
+             if (&&)
+                  ((&&) (negb (is_dummy (lo, hi)))
+                    (prefix (var_prefix c) sym))
+                  (negb (status_eqb t.t_status Cancelled))
+             then Some (n0, (t_cancel gen_cancel_reason t))
+             else Some (n0, t)
+           | None -> Some (n0, t))
         | _ -> children n0 t)
      | _ -> children n0 t)
 
@@ -4260,239 +4390,16 @@ let k_compound_member_target prog =
     | Some lhs -> negb (simple_member_target lhs)
     | None -> false) prog
 
-(** val optchain_view : node -> (bool * node) option **)
-
-let optchain_view = function
-| Node (t, cs) ->
-  (match t with
-   | K (k, _, _) ->
-     (match k with
-      | KOptChain ->
-        (match cs with
-         | [] -> None
-         | n0 :: l ->
-           let Node (t0, cs0) = n0 in
-           (match t0 with
-            | Bln optional ->
-              (match cs0 with
-               | [] ->
-                 (match l with
-                  | [] -> None
-                  | base :: l0 ->
-                    (match l0 with
-                     | [] -> Some (optional, base)
-                     | _ :: _ -> None))
-               | _ :: _ -> None)
-            | _ -> None))
-      | _ -> None)
-   | _ -> None)
-
-(** val is_optional_link : node -> bool **)
-
-let is_optional_link n0 =
-  match optchain_view n0 with
-  | Some p -> let (b, _) = p in b
-  | None -> false
-
-(** val has_optional : node -> bool **)
-
-let has_optional n0 =
-  any_node is_optional_link n0
-
-(** val is_oc_target : char list list -> node -> bool **)
-
-let is_oc_target names e =
-  match optchain_view e with
-  | Some p ->
-    let (b, n0) = p in
-    if b
-    then false
-    else let Node (t, cs) = n0 in
-         (match t with
-          | K (k, _, _) ->
-            (match k with
-             | KCall ->
-               (match cs with
-                | [] -> false
-                | _ :: l ->
-                  (match l with
-                   | [] -> false
-                   | callee :: l0 ->
-                     (match l0 with
-                      | [] -> false
-                      | _ :: l1 ->
-                        (match l1 with
-                         | [] -> false
-                         | _ :: l2 ->
-                           (match l2 with
-                            | [] ->
-                              (match optchain_view callee with
-                               | Some p0 ->
-                                 let (_, n1) = p0 in
-                                 let Node (t0, cs0) = n1 in
-                                 (match t0 with
-                                  | K (k0, _, _) ->
-                                    (match k0 with
-                                     | KMember ->
-                                       (match cs0 with
-                                        | [] -> false
-                                        | _ :: l3 ->
-                                          (match l3 with
-                                           | [] -> false
-                                           | prop :: l4 ->
-                                             (match l4 with
-                                              | [] ->
-                                                (match ident_name_sym prop with
-                                                 | Some name ->
-                                                   existsb (eqb1 name) names
-                                                 | None -> false)
-                                              | _ :: _ -> false)))
-                                     | _ -> false)
-                                  | _ -> false)
-                               | None -> false)
-                            | _ :: _ -> false)))))
-             | _ -> false)
-          | _ -> false)
-  | None -> false
-
-(** val spine_target : char list list -> node -> bool **)
-
-let rec spine_target names n0 = match n0 with
-| Node (t, cs) ->
-  (match t with
-   | K (k, _, _) ->
-     (match k with
-      | KCall ->
-        (match cs with
-         | [] -> false
-         | _ :: l ->
-           (match l with
-            | [] -> false
-            | callee :: l0 ->
-              (match l0 with
-               | [] -> false
-               | _ :: l1 ->
-                 (match l1 with
-                  | [] -> false
-                  | _ :: l2 ->
-                    (match l2 with
-                     | [] -> spine_target names callee
-                     | _ :: _ -> false)))))
-      | KMember ->
-        (match cs with
-         | [] -> false
-         | obj :: l ->
-           (match l with
-            | [] -> false
-            | _ :: l0 ->
-              (match l0 with
-               | [] -> spine_target names obj
-               | _ :: _ -> false)))
-      | KOptChain ->
-        (match cs with
-         | [] -> false
-         | _ :: l ->
-           (match l with
-            | [] -> false
-            | base :: l0 ->
-              (match l0 with
-               | [] -> (||) (is_oc_target names n0) (spine_target names base)
-               | _ :: _ -> false)))
-      | _ -> false)
-   | _ -> false)
-
-(** val spine_off : char list list -> bool -> node -> bool **)
-
-let rec spine_off names found n0 = match n0 with
-| Node (t, cs) ->
-  (match t with
-   | K (k, _, _) ->
-     (match k with
-      | KCall ->
-        (match cs with
-         | [] -> false
-         | _ :: l ->
-           (match l with
-            | [] -> false
-            | callee :: l0 ->
-              (match l0 with
-               | [] -> false
-               | args :: l1 ->
-                 (match l1 with
-                  | [] -> false
-                  | _ :: l2 ->
-                    (match l2 with
-                     | [] ->
-                       (||) (has_optional args) (spine_off names found callee)
-                     | _ :: _ -> false)))))
-      | KMember ->
-        (match cs with
-         | [] -> false
-         | obj :: l ->
-           (match l with
-            | [] -> false
-            | prop :: l0 ->
-              (match l0 with
-               | [] -> (||) (has_optional prop) (spine_off names found obj)
-               | _ :: _ -> false)))
-      | KOptChain ->
-        (match cs with
-         | [] -> false
-         | n1 :: l ->
-           let Node (t0, cs0) = n1 in
-           (match t0 with
-            | Bln optional ->
-              (match cs0 with
-               | [] ->
-                 (match l with
-                  | [] -> false
-                  | base :: l0 ->
-                    (match l0 with
-                     | [] ->
-                       let found' = (||) found (is_oc_target names n0) in
-                       if (&&) found' optional
-                       then false
-                       else spine_off names found' base
-                     | _ :: _ -> false))
-               | _ :: _ -> false)
-            | _ -> false))
-      | _ -> false)
-   | _ -> false)
-
-(** val strictly_inside : (node -> bool) -> node -> bool **)
-
-let strictly_inside p = function
-| Node (_, cs) -> existsb (any_node p) cs
-
-(** val oc_defect : char list list -> node -> bool **)
-
-let oc_defect names e =
-  if spine_target names e
-  then spine_off names false e
-  else strictly_inside (is_oc_target names) e
-
-(** val k_optchain_offspine : char list list -> node -> bool **)
-
-let k_optchain_offspine names prog =
-  any_node (fun e ->
-    match optchain_view e with
-    | Some _ -> oc_defect names e
-    | None -> false) prog
-
 (** val known_classes : char list list -> node -> char list list **)
 
-let known_classes names prog =
+let known_classes _ prog =
   app
     (if k_compound_target_instrumentable prog
      then ('c'::('o'::('m'::('p'::('o'::('u'::('n'::('d'::('-'::('t'::('a'::('r'::('g'::('e'::('t'::('-'::('i'::('n'::('s'::('t'::('r'::('u'::('m'::('e'::('n'::('t'::('a'::('b'::('l'::('e'::[])))))))))))))))))))))))))))))) :: []
      else [])
-    (app
-      (if k_compound_member_target prog
-       then ('c'::('o'::('m'::('p'::('o'::('u'::('n'::('d'::('-'::('m'::('e'::('m'::('b'::('e'::('r'::('-'::('t'::('a'::('r'::('g'::('e'::('t'::[])))))))))))))))))))))) :: []
-       else [])
-      (if k_optchain_offspine names prog
-       then ('o'::('p'::('t'::('c'::('h'::('a'::('i'::('n'::('-'::('o'::('f'::('f'::('s'::('p'::('i'::('n'::('e'::[]))))))))))))))))) :: []
-       else []))
+    (if k_compound_member_target prog
+     then ('c'::('o'::('m'::('p'::('o'::('u'::('n'::('d'::('-'::('m'::('e'::('m'::('b'::('e'::('r'::('-'::('t'::('a'::('r'::('g'::('e'::('t'::[])))))))))))))))))))))) :: []
+     else [])
 
 (** val is_directive : node -> bool **)
 
